@@ -54,11 +54,17 @@ func (m c11) Run(ctx *core.Ctx) {
 			// long lists with few distinct names: sort stability beyond small-slice fast paths
 			cs.Check = "history"
 			k := 13 + r.IntN(40)
+			if r.IntN(4) == 0 {
+				k = gen.Pick(r, gen.ThresholdSizes[:6]) + r.IntN(3) // 9..259: just beyond small/large cut-offs
+			}
 			nm := []string{"a", "b", "c", "é", "\U00010000", "\uffff", "", "aa"}
 			for j := 0; j < k; j++ {
 				cs.Ops = append(cs.Ops, sOp("sp.append", nm[r.IntN(2+r.IntN(len(nm)-1))], fmt.Sprint(j%7, "v", j)))
 			}
-			cs.Ops = append(cs.Ops, sOp(gen.Pick(r, []string{"sp.sort", "sp.sort", "sp.sortabs"})))
+			if r.IntN(2) == 0 {
+				cs.Ops = append(cs.Ops, sOp("sp.get", "a"), sOp("sp.has", "b"))
+			}
+			cs.Ops = append(cs.Ops, sOp(gen.Pick(r, []string{"sp.sort", "sp.sort", "sp.sortabs", "sp.get", "sp.set"}), "a", "changed"))
 			if r.IntN(2) == 0 {
 				cs.Ops = append(cs.Ops, sOp("sp.delete", "a"), sOp("sp.sort"))
 			}
@@ -229,7 +235,29 @@ func (c11) overrideRoundTrip(ctx *core.Ctx, cs *core.Case) {
 
 // expectedStrings: the serializations (by the implementation's own serializer, on a fresh
 // URL) of the candidate orders the model allows; used by the non-mutating observation modes.
-func c11Serialize(pairs []refmodel.Pair) string { return implSerialize("http://h/", pairs) }
+// The list is serialized pair by pair (each through the implementation's serializer on a fresh
+// URL, memoised) and joined with '&': linear in the list length, whereas appending n pairs to one
+// URL re-serializes the growing list n times.
+var c11PairCache = map[refmodel.Pair]string{}
+
+func c11Serialize(pairs []refmodel.Pair) string {
+	var sb strings.Builder
+	for i, p := range pairs {
+		s, ok := c11PairCache[p]
+		if !ok {
+			s = implSerialize("http://h/", []refmodel.Pair{p})
+			if len(c11PairCache) > 200000 {
+				c11PairCache = map[refmodel.Pair]string{}
+			}
+			c11PairCache[p] = s
+		}
+		if i > 0 {
+			sb.WriteByte('&')
+		}
+		sb.WriteString(s)
+	}
+	return sb.String()
+}
 
 func (m c11) Exec(ctx *core.Ctx, cs *core.Case) {
 	if cs.Check == "override-roundtrip" {
@@ -281,10 +309,12 @@ func (m c11) Exec(ctx *core.Ctx, cs *core.Case) {
 		ctx.Violate("the parameter list (read without mutating: String) differs from the list model", c11Serialize(cands[0]), str, where+" query="+fmt.Sprintf("%q", query))
 		return false
 	lookups:
+		looked := map[string]bool{}
 		for _, p := range model.Pairs {
-			if strings.ContainsRune(p.Name, 0xFFFD) {
+			if strings.ContainsRune(p.Name, 0xFFFD) || looked[p.Name] || len(looked) > 40 {
 				continue
 			}
+			looked[p.Name] = true
 			var all []string
 			if pan := ctx.Call(len(p.Name)+64, func() { all = sp.GetAll(p.Name) }); pan != nil {
 				return false
@@ -375,6 +405,23 @@ func (m c11) Exec(ctx *core.Ctx, cs *core.Case) {
 			for _, a := range op.Args {
 				if strings.ContainsRune(refmodel.Scalar(string(a)), 0xFFFD) {
 					mode = 0
+				}
+			}
+		}
+	}
+	if len(model.Pairs) > 300 || len(cs.Ops) > 300 {
+		mode = 2 // very long lists: one non-mutating observation at the end (the per-step oracle is quadratic)
+		for _, p := range model.Pairs {
+			if strings.ContainsRune(p.Name+p.Value, 0xFFFD) {
+				ctx.Count("long_list_skipped(U+FFFD ambiguity)")
+				return
+			}
+		}
+		for _, op := range cs.Ops {
+			for _, a := range op.Args {
+				if strings.ContainsRune(refmodel.Scalar(string(a)), 0xFFFD) {
+					ctx.Count("long_list_skipped(U+FFFD ambiguity)")
+					return
 				}
 			}
 		}
